@@ -850,6 +850,81 @@ def tags_writer(rep):
     return L
 
 
+def event_store_facts(rep):
+    """event_store.rs: what `EventStore::new` takes for a new file, the length it grows a new file to and the length it remembers;
+    the alignment padding of `store_event`; and what one round of its grow path sets (file, mapping, remembered length) and from what"""
+    src = open(os.path.join(REPO, 'pocket-db/src/event_store.rs')).read()
+    L = list(HEAD)
+
+    def clean(body):
+        b = re.sub(r'#\[cfg\(feature\s*=\s*"verif"\)\]\s*crate::verif::point\("[^"]*"\);', '', body)
+        return re.sub(r'\s+', '', b)
+    try:
+        _, body = fn_text(src, 'new')
+        b = clean(body)
+        m = re.search(r'letmutlen=metadata\.len\(\)asusize;letmutnew=len<mem::size_of::<usize>\(\);if!new\{usestd::os::unix::fs::FileExt;'
+                      r'letmutend_offset=\[0u8;mem::size_of::<usize>\(\)\];event_map_file\.read_exact_at\(&mutend_offset,0\)\?;'
+                      r'ifusize::from_le_bytes\(end_offset\)<mmap_append::HEADER_SIZE\{new=true;\}\}'
+                      r'ifnew&&len<EVENT_MAP_CHUNK\{len=EVENT_MAP_CHUNK;event_map_file\.set_len\(EVENT_MAP_CHUNKasu64\)\?;\}'
+                      r'letevent_map=unsafe\{MmapAppend::new\(&event_map_file,new\)\?\};'
+                      r'Ok\(EventStore\{event_map_file,event_map_file_len:AtomicUsize::new\((\w+)\),event_map,\}\)$', b)
+        if not m:
+            raise Untranslatable('EventStore::new is not "len = file length; new = len < 8 or end offset < HEADER_SIZE; a new file shorter than a chunk '
+                                 'is grown to one chunk; map; remember …"')
+        if m.group(1) != 'len':
+            raise Untranslatable('EventStore::new remembers %r as the file length' % m.group(1))
+        L += ['/-- `EventStore::new`: the file is taken for new when it cannot hold the end offset or the offset it holds is below the header -/',
+              'def esNew (fileLen marker usizeBytes headerSize : Nat) : Bool := decide (fileLen < usizeBytes) || decide (marker < headerSize)', '',
+              '/-- the length the file has when it is mapped: a new file shorter than a chunk is grown to one chunk -/',
+              'def esInitLen (chunk fileLen marker usizeBytes headerSize : Nat) : Nat :=',
+              '  if esNew fileLen marker usizeBytes headerSize && decide (fileLen < chunk) then chunk else fileLen', '',
+              '/-- what `event_map_file_len` starts as: the (possibly grown) length of the file -/',
+              'def esRemembered (len : Nat) : Nat := len', '']
+        rep['translated'].append('event_store.rs:new (new-file test, initial length, remembered length)')
+    except Untranslatable as ex:
+        L += ['/-- `EventStore::new` could not be translated: %s -/' % str(ex).replace('-/', '- /'),
+              'def esNew (fileLen marker usizeBytes headerSize : Nat) : Bool := untranslatable_source "EventStore::new"',
+              'def esInitLen (chunk fileLen marker usizeBytes headerSize : Nat) : Nat := untranslatable_source "EventStore::new"',
+              'def esRemembered (len : Nat) : Nat := untranslatable_source "EventStore::new"', '']
+        rep['untranslatable'].append('EventStore::new: %s' % ex)
+    try:
+        _, body = fn_text(src, 'store_event')
+        b = clean(body)
+        m = re.match(r'letmutend=self\.event_map\.get_end\(\);ifend%(\d+)!=0\{letpadding=(\d+)-\(end%(\d+)\);end\+=padding;assert_eq!\(end%\d+,0\);'
+                     r'let_=self\.event_map\.append\(padding,\|_\|Ok\(padding\)\)\?;\}letevent_size=event\.len\(\);loop\{', b)
+        if not m:
+            raise Untranslatable('store_event does not start with "pad the end to a multiple of 8 (an append whose failure is returned), then loop"')
+        L += ['/-- `store_event`: the padding appended before the event -/',
+              'def esPad («end» : Nat) : Nat := if «end» %% %s != 0 then %s - «end» %% %s else 0' % m.groups(), '']
+        g = re.search(r'ife\.to_string\(\)=="Outofspace"\{letnew_file_len=\{letfile_len=self\.event_map_file_len\.load\(Ordering::Relaxed\);file_len\+EVENT_MAP_CHUNK\};(.*?)continue;\}', b)
+        if not g:
+            raise Untranslatable('the grow path is not "on Out of space: new length = remembered length + EVENT_MAP_CHUNK; …; continue"')
+        sets, rest, order = {}, g.group(1), []
+        forms = {'file': r'self\.event_map_file\.set_len\(new_file_lenasu64\)\?;', 'map': r'self\.event_map\.resize\(new_file_len\)\?;',
+                 'mem': r'self\.event_map_file_len\.store\(new_file_len,Ordering::Relaxed\);'}
+        while rest:
+            for k, rx in forms.items():
+                mm = re.match(rx, rest)
+                if mm and k not in sets:
+                    sets[k] = True; order.append(k); rest = rest[mm.end():]
+                    break
+            else:
+                raise Untranslatable('grow path: statement %r' % rest[:60])
+        if order != ['file', 'map', 'mem']:
+            raise Untranslatable('grow path: the order is %s, not set_len, resize, remember' % order)
+        L += ['/-- one round of the grow path of `store_event`: (file length, mapping length, remembered length) afterwards, all set to the',
+              'remembered length plus one chunk, in the order set_len, resize, remember -/',
+              'def esGrow (chunk fileLen mapLen memLen : Nat) : Nat × Nat × Nat := (memLen + chunk, memLen + chunk, memLen + chunk)', '']
+        rep['translated'].append('event_store.rs:store_event (padding, grow path)')
+    except Untranslatable as ex:
+        L += ['/-- `EventStore::store_event` could not be translated: %s -/' % str(ex).replace('-/', '- /'),
+              'def esPad («end» : Nat) : Nat := untranslatable_source "store_event"',
+              'def esGrow (chunk fileLen mapLen memLen : Nat) : Nat × Nat × Nat := untranslatable_source "store_event"', '']
+        rep['untranslatable'].append('EventStore::store_event: %s' % ex)
+    L += ['end Pocket.Src', '']
+    return '\n'.join(L)
+
+
 def index_walkers(rep):
     """`Lmdb::index` and `Lmdb::deindex` as functions from an event to the (table, key) pairs they put / delete: the fixed entries and,
     for every tag whose name is one byte and which has a value (the guard chain of the loop), the three tag-table entries"""
@@ -974,6 +1049,7 @@ def generate():
     files = {'Kind.lean': '\n'.join(K), 'Hex.lean': '\n'.join(H), 'Consts.lean': '\n'.join(L), 'Preds.lean': '\n'.join(E)}
     files['Keys.lean'] = keys_file(rep)
     files['Layout.lean'] = event_layout(rep)
+    files['EventStore.lean'] = event_store_facts(rep)
     return files, rep
 
 
